@@ -280,6 +280,11 @@ def values_agree(a, b):
         r = a == b
         if isinstance(r, np.ndarray):
             return bool(r.all())
+        if not r and isinstance(a, (float, np.floating)) and isinstance(b, (float, np.floating)):
+            # the builtin sum() (compensated summation since Python 3.12) and a left
+            # fold with + are both "the operands added in order"; they differ in the
+            # last bits when inexact floats are added
+            return abs(a - b) <= 8 * 2.0 ** -53 * max(abs(a), abs(b))
         return bool(r)
     except Exception:
         return False
